@@ -294,6 +294,30 @@ k("K126", "C13", "datacodec/timestamp.go", "\t\tif millis, overflow = multiplyEx
   "flag-examined:datacodec.ConvertTimeToEpochMillis -> multiplyExact#2", "overflow flag overwritten before it is tested")
 k("K127", "C13", "datacodec/int.go", "\tcase int64:\n\t\tval, err = int64ToInt32(s)\n", "\tcase int64:\n\t\tval, _ = int64ToInt32(s)\n",
   "flag-examined:datacodec.convertToInt32 -> int64ToInt32#1", "range error discarded")
+# ---- C12
+k("K41", "C12", "datacodec/collection.go", "\tif version.Uses4BytesCollectionLength() {\n\t\tif size > math.MaxInt32 {", "\tif version.Uses4BytesCollectionLength() && size < 0 {\n\t\tif size > math.MaxInt32 {",
+  "container-layout:list encode @v3", "v3+: count written as [short]")
+k("K42", "C12", "datacodec/date.go", "\t\tdest = writeInt32(val - math.MinInt32)", "\t\tdest = writeInt32(val)",
+  "value-layout:date encode", "date offset missing")
+k("K128", "C12", "datacodec/float.go", "\tbinary.BigEndian.PutUint32(dest, math.Float32bits(val))", "\tbinary.LittleEndian.PutUint32(dest, math.Float32bits(val))",
+  "value-layout:float encode", "little-endian float")
+k("K129", "C12", "datacodec/boolean.go", "\t\tval = source[0] != 0", "\t\tval = source[0] == 1",
+  "value-layout:boolean decode", "only 1 is read as true")
+k("K130", "C12", "datacodec/smallint.go", "\t} else if length != primitive.LengthOfShort {", "\t} else if length < primitive.LengthOfShort {",
+  "value-layout:smallint decode", "over-long smallint accepted")
+k("K131", "C12", "datacodec/duration.go", "\t_, _ = primitive.WriteVint(int64(val.Months), writer)\n\t_, _ = primitive.WriteVint(int64(val.Days), writer)", "\t_, _ = primitive.WriteVint(int64(val.Days), writer)\n\t_, _ = primitive.WriteVint(int64(val.Months), writer)",
+  "value-layout:duration encode", "days written before months")
+k("K132", "C12", "datacodec/collection.go", "\t\t\t\tencodedElem, err = primitive.ReadShortBytes(reader)", "\t\t\t\tencodedElem, err = primitive.ReadBytes(reader)",
+  "container-layout:list decode @v2", "v2 elements read as [bytes]")
+k("K133", "C12", "datacodec/collection.go", "\t\tif size > math.MaxUint16 {\n\t\t\terr = collectionSizeTooLarge(size, math.MaxUint16)\n\t\t} else if size < 0 {", "\t\tif size < 0 {",
+  "count-guard:list @v2", "v2 count can wrap at 65536")
+k("K134", "C12", "datacodec/codec.go", "\tcase primitive.DataTypeCodeCounter:\n\t\treturn Counter, nil", "\tcase primitive.DataTypeCodeCounter:\n\t\treturn Int, nil",
+  "value-layout:counter encode", "counter mapped to the 4-byte codec")
+k("K135", "C12", "datacodec/tuple.go", "\t\t\t_ = primitive.WriteBytes(encodedElement, buf)", "\t\t\t_ = primitive.WriteShortBytes(encodedElement, buf)",
+  "container-layout:tuple encode @v4", "tuple fields written as [short bytes]")
+k("K136", "C12", "datacodec/decimal.go", "\tdest := make([]byte, primitive.LengthOfInt, primitive.LengthOfInt+len(unscaled))\n\tbinary.BigEndian.PutUint32(dest, uint32(val.Scale))\n\treturn append(dest, unscaled...)", "\tdest := make([]byte, primitive.LengthOfInt)\n\tbinary.BigEndian.PutUint32(dest, uint32(val.Scale))\n\treturn append(unscaled, dest...)",
+  "value-layout:decimal encode", "scale written after the unscaled value")
+
 # ---- C14
 k("K45", "C14", "datacodec/int.go", "\t\tif d == nil {\n\t\t\terr = ErrNilDestination\n\t\t} else if wasNull {\n\t\t\t*d = 0\n\t\t} else {\n\t\t\t*d = int64(val)\n\t\t}", "\t\tif d == nil {\n\t\t\terr = ErrNilDestination\n\t\t} else if !wasNull {\n\t\t\t*d = int64(val)\n\t\t}",
   "null-dest:convertFromInt32 case *int64", "NULL leaves the destination untouched")
